@@ -92,6 +92,15 @@ def master_equations(par: dict, tree, survival: bool, steps_per_unit=4000):
     # T - t_i of that boundary (a move of at most an ulp), so that the age comparisons below express the forward-time coincidence,
     # also when several bitwise different ages hit the same boundary.
     b_age = [T - t[i + 1] for i in range(m)]
+    # … and the other way round: a node whose AGE equals T - t_i in floats although its forward time T - a is an ulp away from t_i
+    # is NOT on the boundary; the boundary's age is moved one ulp to the side the forward times say it lies on
+    def _ages(node):
+        return [node[0]] + ([] if len(node) == 1 else _ages(node[1]) + _ages(node[2]))
+
+    for i in range(m):
+        for a in set(_ages(tree)):
+            if a == b_age[i] and T - a != t[i + 1]:
+                b_age[i] = math.nextafter(b_age[i], -math.inf if T - a < t[i + 1] else math.inf)
     on_boundary = {}  # canonical age -> boundary index
 
     def snap(node):
